@@ -268,7 +268,13 @@ def schemaReasons (t : STable) (after : Schema) : List String :=
           (match after.pk with
            | some q => if q.cols == p.cols && (p.name.isNone || q.name == p.name) then [] else ["schema: primary key is not the requested one"]
            | none => ["schema: requested primary key missing"])
-      | none => [])
+      | none =>
+        -- the named PRIMARY KEY was dropped by drop_constraint and no operation created another one: the new table
+        -- must not have a primary key at all (a constraint named by drop_constraint is not in the new table)
+        (match after.pk with
+         | some q => if q.cols.isEmpty then [] else
+             ["schema: dropped primary key still present: the table still has PRIMARY KEY " ++ toString q.cols]
+         | none => []))
    else match t.pk, after.pk with
      | some p, some q => if p.cols == q.cols && p.name == q.name then [] else ["schema: untouched primary key changed"]
      | some p, none => if p.cols.isEmpty then [] else ["schema: untouched primary key lost"]
